@@ -125,3 +125,34 @@ package controller
 //@   ensures [C16] len(problems) == 0 ==> nodegroup.TaintEffect == "" || isTaintEffect(nodegroup.TaintEffect)
 //@   ensures [C16] len(problems) == 0 ==> nodegroup.AWS.Lifecycle == "" || nodegroup.AWS.Lifecycle == "on-demand" || nodegroup.AWS.Lifecycle == "spot"
 //@   ensures [C16] len(problems) == 0 ==> nodegroup.MaxNodeAge == "" || parseDurOK(nodegroup.MaxNodeAge)
+
+// ---------------------------------------------------------------- shared vocabulary
+
+//@ import cloudprovider "github.com/atlassian/escalator/pkg/cloudprovider"
+//@ spec dry(c *Controller, g *NodeGroupState) bool = c.Opts.DryMode || g.Opts.DryMode
+//@ spec gid(g *NodeGroupState) string = g.Opts.CloudProviderGroupName
+// the journal before index n is what it was
+//@ spec jprefix(n int) bool = forall k :: 0 <= k && k < n ==> Jkind[k] == old(Jkind)[k] && Jname[k] == old(Jname)[k] && Jok[k] == old(Jok)[k] && Jnode[k] == old(Jnode)[k] && Jnum[k] == old(Jnum)[k] && Jesc[k] == old(Jesc)[k]
+
+//@ func (*Controller).dryMode(c, nodeGroup) (r)
+//@   requires c != nil && nodeGroup != nil
+//@   ensures r <==> dry(c, nodeGroup)
+
+// ---------------------------------------------------------------- scale_up.go
+
+// C04: the only cloud request is one IncreaseSize(d) with d >= 1 and
+// target + d <= min(max_nodes, cloud max); clamped requests land on the bound;
+// without headroom nothing is requested. C11: nothing in dry mode.
+//@ func (*Controller).scaleUpCloudProviderNodeGroup(c, opts) (n, err)
+//@   requires c != nil && opts.nodeGroup != nil && c.cloudProvider != nil
+//@   modifies Jlen, Jkind, Jname, Jnum, Jok
+//@   ensures old(Jlen) <= Jlen && Jlen <= old(Jlen) + 1 && jprefix(old(Jlen))
+//@   ensures [C11] dry(c, opts.nodeGroup) ==> Jlen == old(Jlen)
+//@   ensures Jlen == old(Jlen) + 1 ==> Jkind[old(Jlen)] == C_INCREASE && Jname[old(Jlen)] == gid(opts.nodeGroup) && Jnum[old(Jlen)] >= 1
+//@   ensures [C04] Jlen == old(Jlen) + 1 ==> tgt(gid(opts.nodeGroup)) + Jnum[old(Jlen)] <= cmax(gid(opts.nodeGroup))
+//@   ensures [C04] Jlen == old(Jlen) + 1 ==> tgt(gid(opts.nodeGroup)) + Jnum[old(Jlen)] <= opts.nodeGroup.Opts.MaxNodes
+//@   ensures [C04] Jlen == old(Jlen) + 1 ==> Jnum[old(Jlen)] == min(opts.nodesDelta, min(opts.nodeGroup.Opts.MaxNodes, cmax(gid(opts.nodeGroup))) - tgt(gid(opts.nodeGroup)))
+//@   ensures [C04] min(opts.nodeGroup.Opts.MaxNodes, cmax(gid(opts.nodeGroup))) - tgt(gid(opts.nodeGroup)) <= 0 ==> Jlen == old(Jlen) && err != nil
+//@   ensures err == nil ==> n >= 1 && n <= opts.nodesDelta
+//@   ensures err == nil && !dry(c, opts.nodeGroup) ==> Jlen == old(Jlen) + 1 && Jok[old(Jlen)] && Jnum[old(Jlen)] == n
+//@   ensures err != nil ==> n == 0 && (Jlen == old(Jlen) || !Jok[old(Jlen)])
